@@ -96,6 +96,8 @@ fn serve(stream: TcpStream, ix: usize, srv: Arc<Mutex<Srv>>) {
                         "stale" => Some(bulk(&prev)),
                         "wrong" => Some(bulk("bogus")),
                         "error" => Some(b"-ERR scripted failure\r\n".to_vec()),
+                        // no reply at all (the connection stays open): the pool's recycle timeout has to end the wait
+                        "stall" => Some(vec![]),
                         _ => None, // disconnect
                     };
                 }
@@ -155,7 +157,9 @@ impl World {
             s.plan = plan.into();
         }
         let known = self.known;
-        let to = Timeouts { wait: Some(Duration::ZERO), create: None, recycle: None };
+        // never wait for a slot; the pool's own recycle timeout stays in force
+        let mut to: Timeouts = self.pool.timeouts();
+        to.wait = Some(Duration::ZERO);
         let r = tokio::time::timeout(Duration::from_secs(3), self.pool.timeout_get(&to)).await;
         match r {
             Ok(Ok(mut c)) => {
@@ -216,7 +220,10 @@ pub fn run_path(cfg: &Cfg, path: &PathRec<Post>, record: bool) -> (PathResult, V
     let rt = tokio::runtime::Builder::new_multi_thread().worker_threads(1).enable_all().build().unwrap();
     rt.block_on(async {
         let mut c = Config::from_url(format!("redis://127.0.0.1:{}/", port));
-        c.pool = Some(PoolConfig::new(cfg.max_size));
+        let mut pc = PoolConfig::new(cfg.max_size);
+        // (loopback TCP with delayed ACKs answers a pipelined recycle after up to ~40 ms)
+        pc.timeouts.recycle = Some(Duration::from_millis(400));
+        c.pool = Some(pc);
         let pool = c.create_pool(Some(Runtime::Tokio1)).unwrap();
         let mut w = World { pool, srv: srv.clone(), held: BTreeMap::new(), tags: 0, known: 0, last_get: "-".into(), returned_at: BTreeMap::new(), reuse_facts: vec![], taken: BTreeMap::new(), taken_reissued: 0, take_size_bad: 0, kept: vec![] };
         let mut n = 0usize;
